@@ -68,6 +68,17 @@ def check(run: Run) -> None:
     for s in corpus.invalid_seeds() + [h["src"] for h in corpus.harvested()[::9] if h["mode"] == "exec"]:
         add(s, "invalid_or_harvested")
         add(s.replace("\n", "\r\n"), "invalid_or_harvested:crlf")
+    # what an earlier statement leaves behind must not differ between the entry points: every pair of statement kinds of
+    # StmtSeq.tla (macros, multi-line strings, debug fields, ...), and every kind followed by a statement that is rejected
+    from . import c14
+
+    PROBES = ("v = f'{u = }' +\n", "y = (1 +\n", "z = 1 1\n", 'w = f\'\'\'{u\n =}\'\'\' 2\n')
+    for c in c14.generate(run, "quick"):
+        if len(c["kinds"]) <= 2:
+            add("".join(c["parts"]), "stmtseq")
+        if len(c["kinds"]) == 1:
+            for probe in PROBES:
+                add(c["parts"][0] + probe, "stmtseq:then_error")
     traces_tree, traces_err, meta = [], [], {}
     for envname, (env, pyargs) in ENVS.items():
         res = run_ops("c12", [{"src": c["src"]} for c in cases], limit=20.0, batch=100, env_extra=env, pyargs=pyargs)
